@@ -13,7 +13,7 @@ moment; no two accepted saves share a base version; an accepted save raises the 
 that is refused leaves the stored version alone.
 """
 from symx.obligation import Obligation
-from props.agg_common2 import unvalidated_init, patched, Suspend, MiniLoop, Stepper
+from props.agg_common2 import unvalidated_init, patched, expect, Suspend, MiniLoop, Stepper
 
 REPLIES = ["ok", "caller_error", "internal_error", "transport_exception"]
 
@@ -148,6 +148,7 @@ def harness(sym):
     steppers = [None] * n
     stale_at_request = [None] * n
     accepted_bases = []
+    tainted = []          # saves accepted on a stale version (only continues past this with a recorded known finding)
     trace = []
 
     def settle():
@@ -173,18 +174,23 @@ def harness(sym):
                       f"{trace}: save {i} raised {type(s.exception).__name__} but the stored version changed")
             return
         # accepted
+        sym.reach()
+        accepted_before = list(accepted_bases)
+        accepted_bases.append(bases[i])
         if stale_at_request[i]:
-            sym.check(bases[i] == stored_before, "accepted-on-stale-version|stale-at-request",
-                      f"{trace}: save {i} was based on a version that was not current when it was requested, and was accepted")
-        sym.check(bases[i] == stored_before, "accepted-on-stale-version|version-moved-during-engine-roundtrip",
-                  f"{trace}: save {i} was accepted although another save had been accepted on the same base version "
-                  f"while it was waiting for the engine (check before await, update after)")
-        sym.check(not any(b == bases[i] for b in accepted_bases), "two-accepted-saves-same-base-version",
+            if not expect(sym, bases[i] == stored_before, "accepted-on-stale-version|stale-at-request",
+                          f"{trace}: save {i} was based on a version that was not current when it was requested, and was accepted"):
+                tainted.append(i)
+                return
+        if not expect(sym, bases[i] == stored_before, "accepted-on-stale-version|version-moved-during-engine-roundtrip",
+                      f"{trace}: save {i} was accepted although another save had been accepted on the same base version "
+                      f"while it was waiting for the engine (check before await, update after)"):
+            tainted.append(i)       # everything after this point is a consequence of the lost update
+            return
+        sym.check(not any(b == bases[i] for b in accepted_before), "two-accepted-saves-same-base-version",
                   f"{trace}: two saves based on the same version were both accepted")
         sym.check(stored_after == stored_before + 1, "accepted-save-version-step-not-1",
                   f"{trace}: accepted save {i} did not raise the stored version by exactly one")
-        accepted_bases.append(bases[i])
-        sym.reach()
 
     models = (Mdl.Method, Mdl.MethodLine, Dto.MethodVersion) if via_router else ()
     with unvalidated_init(sym, *models), patched(sym, asyncio, "create_task", fake_create_task):
@@ -196,7 +202,7 @@ def harness(sym):
             while True:
                 enabled = [("start", i) for i in range(n) if steppers[i] is None] + \
                           [("reply", i) for i in range(n) if steppers[i] is not None and steppers[i].state == "suspended"]
-                if not enabled:
+                if not enabled or tainted:
                     break
                 if step_no < len(prefix) and tuple(prefix[step_no]) in enabled:
                     act, i = tuple(prefix[step_no])
@@ -219,8 +225,9 @@ def harness(sym):
                     steppers[i].step()
                 finished(i, stored_before)
                 settle()
-            blocked = [i for i in range(n) if steppers[i].state != "done"]
-            sym.check(not blocked, "save-never-completes", f"{trace}: saves {blocked} never completed")
+            if not tainted:
+                blocked = [i for i in range(n) if steppers[i] is None or steppers[i].state != "done"]
+                sym.check(not blocked, "save-never-completes", f"{trace}: saves {blocked} never completed")
             sym.reach()
         finally:
             for s in steppers:
